@@ -21,6 +21,8 @@ func Lookup(id string) sim.Property {
 		return C11{}
 	case "C12":
 		return C12{}
+	case "C16":
+		return C16{}
 	case "C08":
 		return C08{}
 	}
